@@ -285,6 +285,12 @@ class IoTr2(IoTr):
                 self.bad(e, 'a tuple of pairs of differing types')
             (ka, kb), = kinds
             return '[' + ', '.join(f'({a[0]}, {b[0]})' for a, b in items) + ']', ('Pair', ka, kb)
+        if isinstance(e, ast.Call) and ast.unparse(e.func) == 'zip' and len(e.args) == 2 and not e.keywords \
+                and all(isinstance(a, ast.Call) and isinstance(a.func, ast.Attribute) and isinstance(a.func.value, ast.Name) and not a.args
+                        for a in e.args) and e.args[0].func.value.id == e.args[1].func.value.id \
+                and (e.args[0].func.attr, e.args[1].func.attr) == ('shapes', 'records') \
+                and self.env.get(e.args[0].func.value.id, (None, None))[1] == 'Reader':
+            return f'({self.env[e.args[0].func.value.id][0]}).rows', ('Pair', 'ShpShape', 'Dict')
         if isinstance(e, ast.Call) and ast.unparse(e.func) == 'enumerate' and len(e.args) == 1 and not e.keywords:
             t, pure, k = self.expr(e.args[0])
             if pure and isinstance(k, tuple) and k[0] == 'List':
@@ -341,7 +347,71 @@ class IoTr2(IoTr):
         return text, ('List', k), pure
 
     # ---- expressions -----------------------------------------------------------------------------------------------------
+    KIND_OF_CLASS = {'GeoPoint': 'Kind.point', 'GeoLineString': 'Kind.line', 'GeoPolygon': 'Kind.poly', 'MultiGeoPoint': 'Kind.mpoint',
+                     'MultiGeoLineString': 'Kind.mline', 'MultiGeoPolygon': 'Kind.mpoly'}
+
+    def reader_expr(self, e):
+        """the reader side (`from_shapefile`): archive members, the pyshp reader's rows, the class map"""
+        u = ast.unparse(e)
+        if isinstance(e, ast.Dict) and e.keys and all(isinstance(k, ast.Constant) and isinstance(k.value, str) for k in e.keys) \
+                and all(isinstance(v, ast.Name) and v.id in self.KIND_OF_CLASS for v in e.values):
+            return '[' + ', '.join(f'({py2lean._lean_str(k.value)}, {self.KIND_OF_CLASS[v.id]})' for k, v in zip(e.keys, e.values)) + ']', True, 'ClassMap'
+        if isinstance(e, ast.Call) and isinstance(e.func, ast.Attribute) and isinstance(e.func.value, ast.Name) and e.func.value.id in self.env \
+                and not e.keywords:
+            t, k = self.env[e.func.value.id]
+            m, n = e.func.attr, len(e.args)
+            if k == 'Archive' and m == 'namelist' and n == 0:
+                return t, True, ('List', 'Member')
+            if k == 'Reader' and m == 'shapes' and n == 0:
+                return f'(({t}).rows.map (·.1))', True, ('List', 'ShpShape')
+            if k == 'Reader' and m == 'records' and n == 0:
+                return f'(({t}).rows.map (·.2))', True, ('List', 'Dict')
+            if k == 'Dict' and m == 'as_dict' and n == 0:
+                return t, True, 'Dict'
+            if k == 'Kind' and m == 'from_pyshp':
+                pass
+        if isinstance(e, ast.Call) and isinstance(e.func, ast.Attribute) and e.func.attr == 'from_pyshp' and isinstance(e.func.value, ast.Name) \
+                and self.env.get(e.func.value.id, (None, None))[1] == 'Kind' and len(e.args) == 1 and [k.arg for k in e.keywords] == ['dt', 'properties']:
+            def mk(a):
+                if [x[1] for x in a] != ['ShpShape', 'V', 'Dict']:
+                    self.bad(e, 'from_pyshp(shape, dt=…, properties=…) at other types')
+                return f'fromPyshpV {self.env[e.func.value.id][0]} {a[0][0]} {a[1][0]} {a[2][0]}'
+            t, _p = self.bind_args([e.args[0], e.keywords[0].value, e.keywords[1].value], mk)
+            return t, False, 'Shape'
+        if u.endswith(".__geo_interface__.get('type')") and isinstance(e, ast.Call) and isinstance(e.func.value, ast.Attribute) \
+                and isinstance(e.func.value.value, ast.Name) and self.env.get(e.func.value.value.id, (None, None))[1] == 'ShpShape':
+            return f'({self.env[e.func.value.value.id][0]}).gtype', True, 'Str'
+        if isinstance(e, ast.Call) and u.startswith('shapefile.Reader(') and len(e.args) == 1 and isinstance(e.args[0], ast.BinOp) \
+                and isinstance(e.args[0].op, ast.Div) and isinstance(e.args[0].left, ast.Call) and ast.unparse(e.args[0].left.func) == 'Path' \
+                and len(e.args[0].left.args) == 1:
+            a, _ap, ak = self.expr(e.args[0].left.args[0])
+            b, bp, bk = self.expr(e.args[0].right)
+            if ak == 'Archive' and bk == 'Member' and bp:
+                return f'({b}).reader', True, 'Reader'
+        if isinstance(e, ast.Subscript) and isinstance(e.value, ast.Name) and self.env.get(e.value.id, (None, None))[1] == 'ClassMap':
+            t, _p = self.bind_args([e.slice], lambda a: f'classGet {self.env[e.value.id][0]} {a[0][0]}')
+            return t, False, 'Kind'
+        if isinstance(e, ast.DictComp) and len(e.generators) == 1 and isinstance(e.generators[0].target, ast.Tuple) \
+                and ast.unparse(e.generators[0].target) == f'({ast.unparse(e.key)}, {ast.unparse(e.value)})':
+            g = e.generators[0]
+            if isinstance(g.iter, ast.Call) and isinstance(g.iter.func, ast.Attribute) and g.iter.func.attr == 'items':
+                d, dp, dk = self.expr(g.iter.func.value)
+                if dp and dk == 'Dict':
+                    saved = dict(self.env)
+                    x = self.gensym('kv')
+                    binds = self.bind_target(g.target, x, ('Pair', 'Str', 'PVal'))
+                    cs = [self.test(c) for c in g.ifs]
+                    self.env = saved
+                    if all(p for _t, p in cs):
+                        return f'({d}.filter fun {x} => {binds}' + (' && '.join(t for t, _p in cs) or 'true') + ')', True, 'Dict'
+        if isinstance(e, ast.List) and not e.elts and getattr(self, 'empty_list_kind', None):
+            return f'([] : {lean_t(self.empty_list_kind)})', True, self.empty_list_kind
+        return None
+
     def expr(self, e):
+        r = self.reader_expr(e)
+        if r is not None:
+            return r
         if isinstance(e, ast.Attribute) and isinstance(e.value, ast.Name) and e.value.id in self.env:
             t, k = self.env[e.value.id]
             if k == 'Coll' and e.attr == 'geoshapes':
@@ -387,11 +457,36 @@ class IoTr2(IoTr):
                 return f'(shapeIsA Cls.{c} {t})', True
             if e.func.id == 'issubclass' and k == 'PTag' and pure and c in self.CLASS_TAGS:
                 return f'(PTag.isSub {t} {self.CLASS_TAGS[c]})', True
+        if isinstance(e, ast.BoolOp) and isinstance(e.op, ast.And) and isinstance(e.values[0], ast.Name) \
+                and self.env.get(e.values[0].id, (None, None))[1] == 'NoneT':
+            return 'false', True            # `None and …`: the instance is declared at None, the rest is not evaluated
+        if isinstance(e, ast.Call) and isinstance(e.func, ast.Attribute) and e.func.attr == 'endswith' and len(e.args) == 1 \
+                and isinstance(e.args[0], ast.Constant) and e.args[0].value == '.shp':
+            t, pure, k = self.expr(e.func.value)
+            if pure and k == 'Member':
+                return f'({t}).isShp', True
+        if isinstance(e, ast.Compare) and len(e.ops) == 1 and isinstance(e.ops[0], (ast.In, ast.NotIn)) \
+                and isinstance(e.comparators[0], ast.Tuple):
+            a, ap, ak = self.expr(e.left)
+            items = [self.expr(x) for x in e.comparators[0].elts]
+            if ap and ak == 'Str' and all(p and k == 'Str' for _t, p, k in items):
+                neg = '!' if isinstance(e.ops[0], ast.NotIn) else ''
+                return f'({neg}(' + ' || '.join(f'{a} == {t}' for t, _p, _k in items) + '))', True
+        if isinstance(e, ast.Compare) and len(e.ops) == 1 and isinstance(e.ops[0], (ast.In, ast.NotIn)) \
+                and isinstance(e.comparators[0], ast.Name) and self.env.get(e.comparators[0].id, (None, None))[1] == 'ClassMap':
+            a, ap, ak = self.expr(e.left)
+            if ap and ak == 'Str':
+                neg = '!' if isinstance(e.ops[0], ast.In) else ''
+                return f'({neg}(dictGet {self.env[e.comparators[0].id][0]} {a}).isNone)', True
         if isinstance(e, ast.Compare) and len(e.ops) == 1 and isinstance(e.ops[0], (ast.In, ast.NotIn)):
             (a, ap, ak), (b, bp, bk) = self.expr(e.left), self.expr(e.comparators[0])
             if ap and bp and ak == 'Str' and bk == 'Incl':
                 neg = '!' if isinstance(e.ops[0], ast.NotIn) else ''
                 return f'({neg}inclContains {b} {a})', True
+        if isinstance(e, ast.Call):
+            r = self.reader_expr(e)
+            if r is not None and r[1] and isinstance(r[2], tuple) and r[2][0] == 'List':
+                return f'(!({r[0]}).isEmpty)', True
         if isinstance(e, ast.Name) and e.id in self.env:
             t, k = self.env[e.id]
             if k == 'Incl':
@@ -458,6 +553,18 @@ class IoTr2(IoTr):
                 and isinstance(s.items[0].optional_vars, ast.Name):
             self.env[s.items[0].optional_vars.id] = ('()', 'Path')
             return self.block(list(s.body) + rest, fall)
+        if isinstance(s, ast.With) and len(s.items) == 1 and isinstance(s.items[0].context_expr, ast.Call) \
+                and ast.unparse(s.items[0].context_expr.func) == 'ZipFile' and isinstance(s.items[0].optional_vars, ast.Name) \
+                and len(s.items[0].context_expr.args) == 2 and ast.unparse(s.items[0].context_expr.args[1]) == "'r'":
+            a, ap, ak = self.expr(s.items[0].context_expr.args[0])
+            if ak == 'Archive':
+                self.env[s.items[0].optional_vars.id] = (a, 'Archive')
+                return self.block(list(s.body) + rest, fall)
+        if isinstance(s, ast.Return) and isinstance(s.value, ast.Call) and isinstance(s.value.func, ast.Name) and s.value.func.id == 'cls' \
+                and len(s.value.args) == 1 and not s.value.keywords:
+            t, pure, k = self.expr(s.value.args[0])
+            if pure and k == ('List', 'Shape'):
+                return f'pure {t}'
         if isinstance(s, ast.For) and not s.orelse:
             return self.for_stmt(s, rest, fall)
         if isinstance(s, ast.Expr) and isinstance(s.value, ast.Call) and isinstance(s.value.func, ast.Attribute) \
@@ -488,6 +595,9 @@ class IoTr2(IoTr):
             t, pure, k = self.expr(c.args[0])
             if pure and k == rk[1]:
                 return f'let {rt} := {rt} ++ [{t}]\n' + self.block(rest, fall)
+            if k == rk[1]:
+                x = self.gensym('v')
+                return f'({t}) >>= fun {x} =>\nlet {rt} := {rt} ++ [{x}]\n' + self.block(rest, fall)
         if m == 'field' and rk == 'Writer' and len(c.args) == 2 and isinstance(c.args[1], ast.Constant):
             k, kp, kk = self.expr(c.args[0])
             kws = {x.arg: x.value for x in c.keywords}
@@ -570,11 +680,13 @@ class Fn:
     def __init__(self, qual, lean, params, closure=(), nt='false', doc='', writer=False, localfns=None):
         self.qual, self.lean, self.params, self.closure, self.nt, self.doc = qual, lean, list(params), list(closure), nt, doc
         self.writer, self.localfns = writer, localfns or {}
+        self.reader = False
 
 
 KIND_TYPE = {'V': 'V', 'Str': 'String', 'Dict': 'Dict PVal', 'Shape': 'Shape', 'Nat': 'Nat', 'PVal': 'PVal', 'PTag': 'PTag',
              'TagDict': 'Dict PTag', 'Incl': 'Option (List String)', 'Writer': 'WriterS', 'Out': 'List ShpFileW', 'Path': 'Unit',
-             'Coll': 'List Shape'}
+             'Coll': 'List Shape', 'Archive': 'List Member', 'Member': 'Member', 'Reader': 'ShpFileR', 'ShpShape': 'ShpShapeR',
+             'ClassMap': 'List (String × Kind)', 'Kind': 'Kind', 'NoneT': 'Unit'}
 
 
 def find_def(tree, qual):
@@ -644,6 +756,14 @@ class IoUnit:
             for a_ in tr.shared['aux']:
                 pre += a_.split('\n') + ['']
             ret = 'Except String (List ShpFileW)'
+        elif f.reader:
+            tr = IoTr2(f.qual, node, env, f.nt, f.lean, f.localfns)
+            tr.empty_list_kind = ('List', 'Shape')
+            tr.ret_bare = None
+            body = tr.block(list(node.body), fall='.error "ERR:NoReturn"')
+            for a_ in tr.shared['aux']:
+                pre += a_.split('\n') + ['']
+            ret = 'Except String (List Shape)'
         else:
             tr = IoTr(f.qual, node, env, f.nt)
             body = tr.block(list(node.body))
@@ -671,6 +791,12 @@ def unit():
            nt='false', writer=True, localfns={'_convert_dt': 'convertDt'},
            doc='what reaches the pyshp writers, file after file (`zip_out`)'),
     ]
+    rd = Fn('CollectionBase.from_shapefile', 'fromShapefile',
+            [('cls', 'Path'), ('zip_fpath', 'Archive'), ('time_start_field', 'Str'), ('time_end_field', 'Str'), ('read_layers', 'NoneT')],
+            nt='false', localfns={'_get_dt': 'shpGetDt time_start_field time_end_field'},
+            doc='at `read_layers=None`; the archive is the list of its members')
+    rd.reader = True
+    fns.append(rd)
     pins = {
         'time.py::TimeInterval.__init__': PIN_TI,        # `V.mkTI`
         '_base.py::BaseShape.__init__': PIN_BASE,        # `dtOfArg`
